@@ -272,6 +272,18 @@ def _viewport(I, tag):
     return T.CameraViewPort(I.iarray(f"{tag}.vo", 2, "i32"), I.iarray(f"{tag}.vs", 2, "i32"))
 
 
+def _cam_map(I, name, nc, dt):
+    """camera map; with map_dtype the caller's array has another integer dtype (values
+    still fit int16, the on-disk type)"""
+    m = I.iarray(name, nc, "i16")
+    if not dt:
+        return m
+    if dt == "<u1":
+        for k in range(nc):
+            I.assume(I.and_(m[k] >= 0, m[k] <= 255))
+    return I.np.asarray(m).astype(dt)
+
+
 def build_calib(I, sh, tag="b"):
     m = I.mod("tdfCalibrationData")
     fmt = sh.get("fmt", 1)
@@ -301,7 +313,7 @@ def build_calib(I, sh, tag="b"):
         calibration_volume_size=I.farray(f"{tag}.vol", (3,)),
         calibration_volume_rotation_matrix=I.farray(f"{tag}.rot", (3, 3)),
         calibration_volume_translation_vector=I.farray(f"{tag}.tr", (3,)),
-        cameras_calibration_map=I.iarray(f"{tag}.map", nc, "i16"),
+        cameras_calibration_map=_cam_map(I, f"{tag}.map", nc, sh.get("map_dtype")),
         cam_data=cams,
         format=m.CalibrationDataBlockFormat(fmt),
     )
